@@ -45,6 +45,24 @@ def v6_spellings(x):
     return list(dict.fromkeys(out))
 
 
+def v6_notations(x):
+    """Every way to write a 128-bit value with hexadecimal groups: no compression, and '::' standing for each
+    contiguous run of zero groups (any sub-run, also a single group - valid although str() never emits it);
+    for each of these also with the last two groups as a dotted quad.  Lower case, no leading zeros."""
+    g = [(x >> (16 * (7 - i))) & 0xFFFF for i in range(8)]
+    h = ["%x" % v for v in g]
+    quad = "%d.%d.%d.%d" % (g[6] >> 8, g[6] & 255, g[7] >> 8, g[7] & 255)
+    out = [":".join(h), ":".join(h[:6]) + ":" + quad]
+    for i in range(8):
+        for j in range(i, 8):
+            if any(g[i:j + 1]):
+                break
+            out.append(":".join(h[:i]) + "::" + ":".join(h[j + 1:]))
+            if j < 6:
+                out.append(":".join(h[:i]) + "::" + ":".join(h[j + 1:6] + [quad]))
+    return list(dict.fromkeys(out))
+
+
 # ------------------------------------------------------------------ AS numbers
 
 AS_BLOCKS = [(0, 64511), (64512, 65535), (65536, 4199999999), (4200000000, 4294967295)]
